@@ -222,3 +222,27 @@ Qed.
 Lemma f18_depends_on_unrelated :
   bgp_decide 0 f18_view = RAnnounce /\ bgp_decide 0 f18_view' = RNoEndpoints.
 Proof. vm_compute. split; reflexivity. Qed.
+
+(* the reason is checked nondeterminism: the reference order reports an applicable reason; RAnnounce applies iff the
+   decision is "announce"; any other applicable reason means "do not announce" *)
+Lemma reason_of_decide_applies me v : reason_applies me v (bgp_decide me v) = true.
+Proof.
+  unfold reason_applies, bgp_decide.
+  destruct (existsb (mem me) (bv_advs v)), (bv_node v) as [[[|] [|]]|], (bv_ignore v), (bv_local v),
+    (has_healthy (not_me me) (bv_eps v)), (has_healthy (fun _ => false) (bv_eps v)); reflexivity.
+Qed.
+
+Lemma announce_applies_iff me v : reason_applies me v RAnnounce = true <-> bgp_decide me v = RAnnounce.
+Proof.
+  unfold reason_applies, bgp_decide.
+  destruct (existsb (mem me) (bv_advs v)), (bv_node v) as [[[|] [|]]|], (bv_ignore v), (bv_local v),
+    (has_healthy (not_me me) (bv_eps v)), (has_healthy (fun _ => false) (bv_eps v)); cbn; split; congruence.
+Qed.
+
+Lemma other_reason_means_no me v r : r <> RAnnounce -> reason_applies me v r = true -> bgp_decide me v <> RAnnounce.
+Proof.
+  intros Hr Ha Hd. apply announce_applies_iff in Hd. revert Ha Hd. unfold reason_applies.
+  destruct (existsb (mem me) (bv_advs v)), (bv_node v) as [[[|] [|]]|], (bv_ignore v), (bv_local v),
+    (has_healthy (not_me me) (bv_eps v)), (has_healthy (fun _ => false) (bv_eps v)), r; cbn; congruence.
+Qed.
+
